@@ -1,0 +1,43 @@
+//go:build verif
+
+package consensus
+
+import "runtime/debug"
+
+// VerifStart does what Service.Start does with the event loop's goroutine
+// guarded: a panic raised while the service handles a payload, a timeout, a
+// transaction or a chain block is handed to onPanic (value and stack) instead of
+// ending the process. The service then counts as stopped: it is unsubscribed
+// from the chain's block events, OnPayload and OnTransaction drop what they
+// get, Shutdown returns at once.
+func VerifStart(srv Service, onPanic func(v any, stack []byte)) {
+	s := srv.(*service)
+	if s.started.CompareAndSwap(false, true) {
+		s.log.Info("starting consensus service")
+		b, _ := s.Chain.GetBlock(s.Chain.CurrentBlockHash()) // Can't fail, we have some current block!
+		s.lastTimestamp = b.Timestamp
+		s.dbft.Start(s.lastTimestamp * nsInMs)
+		go func() {
+			defer func() {
+				r := recover()
+				if r == nil {
+					return
+				}
+				st := debug.Stack()
+				s.started.Store(false)
+				go func() { // senders that passed the started check a moment ago
+					for {
+						select {
+						case <-s.messages:
+						case <-s.transactions:
+						}
+					}
+				}()
+				s.Chain.UnsubscribeFromBlocks(s.blockEvents)
+				close(s.finished)
+				onPanic(r, st)
+			}()
+			s.eventLoop()
+		}()
+	}
+}
